@@ -127,7 +127,7 @@ func conc19MakePlan(seed uint64, tier string, cat *conc19Catalog) *conc19Plan {
 	r := &Ctx{Seed: seed, rng: seed * 0x2545F4914F6CDD1D, stats: map[string]int{}}
 	p := &conc19Plan{seed: seed}
 	p.nthreads = []int{2, 4, 8, 16}[r.Intn(4)]
-	nm := 4 + r.Intn(8)
+	nm := 3 + r.Intn(5)
 	seen := map[string]bool{}
 	add := func(t string) {
 		if !seen[t] {
